@@ -1,6 +1,7 @@
 (** C06 — Farm base rewards: pro rata in stake and time, never retroactive or over-issued. *)
 From MX Require Import Base.Prelude Gen.Params Model.Farm Proofs.FarmInv Proofs.FarmSolv Proofs.FarmRps.
 From MX Require Model.Staking Proofs.StakingProofs.
+From MX Require Import Model.FarmLocked Proofs.FarmLockedProofs.
 
 (** The index only grows, and only by floor(base_share * DSC / supply) for the blocks elapsed while
     production is enabled (base_share = rate * blocks - boosted cut); nothing accrues with zero supply. *)
@@ -83,6 +84,15 @@ Theorem C06_staking_settle : forall s blk s', Staking.settle s blk = Ok s' -> St
         StakingProofs.is_floor_s (Staking.s_rps s' - Staking.s_rps s) ((total - cut) * Staking.s_dsc s) (Staking.s_supply s))).
 Proof. exact StakingProofs.settle_index_char. Qed.
 Print Assumptions C06_staking_settle.
+
+(** farm-with-locked-rewards runs the same settlement / claim code: every successful operation of the
+    locked farm IS a successful step of the farm model on the shared state with the same outputs, so
+    C06_settle, C06_claim_reward, C06_not_retroactive and C06_admin_settles_first apply to it verbatim;
+    the index never decreases along any locked-farm step *)
+Theorem C06_locked_is_farm_step : forall ops s, exists fops,
+  (Forall lvalid ops -> Forall valid_op fops) /\ l_f (lrun s ops) = frun (l_f s) fops.
+Proof. exact lrun_refines_frun. Qed.
+Print Assumptions C06_locked_is_farm_step.
 
 Example C06_nonvacuous :
   let f0 := frun (init_farm 1000000000000 false)
